@@ -7,18 +7,18 @@ def gen(tier, rng):
     for a in EDGE_WORDS:
         for b in EDGE_WORDS:
             for c in [0, 1, 2, WMAX, 1 << 63, (1 << 63) - 1]:
-                yield f"w.adc {hx(a)} {hx(b)} {hx(c)}"
-                yield f"w.sbb {hx(a)} {hx(b)} {hx(c)}"
+                yield f"c04.w.adc {hx(a)} {hx(b)} {hx(c)}"
+                yield f"c04.w.sbb {hx(a)} {hx(b)} {hx(c)}"
     for _ in range(reps * 10):
         a, b, c, d = (limb_choice(rng) for _ in range(4))
-        yield f"w.adc {hx(a)} {hx(b)} {hx(c)}"
-        yield f"w.sbb {hx(a)} {hx(b)} {hx(c)}"
-        yield f"w.mac {hx(a)} {hx(b)} {hx(c)} {hx(d)}"
+        yield f"c04.w.adc {hx(a)} {hx(b)} {hx(c)}"
+        yield f"c04.w.sbb {hx(a)} {hx(b)} {hx(c)}"
+        yield f"c04.w.mac {hx(a)} {hx(b)} {hx(c)} {hx(d)}"
     for e in [0, 1, WMAX]:
         for f in [0, 1, WMAX]:
             for g in [0, 1, WMAX]:
                 for h in [0, 1, WMAX]:
-                    yield f"w.mac {hx(e)} {hx(f)} {hx(g)} {hx(h)}"
+                    yield f"c04.w.mac {hx(e)} {hx(f)} {hx(g)} {hx(h)}"
     for n in widths:
         m = 1 << (64 * n)
         directed = [(m - 1, 1), (0, 1), (m - 1, m - 1), (0, 0), (m - 1, 0), (1, m - 1), (m // 2, m // 2), (m // 2 - 1, m // 2)]
@@ -27,7 +27,7 @@ def gen(tier, rng):
         pairs = directed + [pair(rng, n) for _ in range(reps)]
         for a, b in pairs:
             for c in ([0, 1, 2, WMAX] if (a, b) in directed else [rng.choice([0, 1, 2, WMAX, limb_choice(rng)])]):
-                yield f"u.adc {n} {hx(a)} {hx(b)} {hx(c)}"
-                yield f"u.sbb {n} {hx(a)} {hx(b)} {hx(c)}"
+                yield f"c04.u.adc {n} {hx(a)} {hx(b)} {hx(c)}"
+                yield f"c04.u.sbb {n} {hx(a)} {hx(b)} {hx(c)}"
             for op in ["wrapping_add", "wrapping_sub", "saturating_add", "saturating_sub", "checked_add", "checked_sub"]:
-                yield f"u.{op} {n} {hx(a)} {hx(b)}"
+                yield f"c04.u.{op} {n} {hx(a)} {hx(b)}"
